@@ -13,7 +13,7 @@ ORACLES = ("failure", "termination")
 RULE = (
     "cases = call-only DAG programs (2-9 sites, three resources, sequential flags, max_concurrency 1..4, both "
     "flavours) x 0-2 failing sites (each raises a unique InjectedError instance when released) x completion order "
-    "(controlled / exhaustive tree / free) x {call location known, inspect.currentframe patched to None at build}. "
+    "(controlled / exhaustive tree / free; a quarter of the failing nodes run inline as the last choice among the ready nodes) x {call location known, inspect.currentframe patched to None at build}. "
     "oracle: the call raises; the exception is a TawaziBaseException whose message contains the failing node's id and "
     "a file:line of the describing interpreter and whose __cause__ is the injected instance (without location: the "
     "injected instance itself); it names one of the nodes that actually failed; no descendant of a failed node is "
@@ -22,7 +22,7 @@ RULE = (
     "raise. non-trivial = a failing node ran, has >= 1 descendant, and >= 1 other node was inside its function when it failed."
 )
 ASSUMPTIONS = ["failures are Exception subclasses (tawazi's own errors derive from BaseException on purpose)"]
-BUDGET = {"quick": {"shards": 4, "seconds": 40}, "thorough": {"shards": 16, "seconds": 420}}
+BUDGET = {"quick": {"shards": 8, "seconds": 40}, "thorough": {"shards": 16, "seconds": 420}}
 
 
 def _nt(case: Dict[str, Any], M: Model, stats: List[Dict[str, Any]]) -> bool:
